@@ -13,7 +13,7 @@ from harness.steps import process_step
 EAGER = ["ack", "nack", "reject", "reschedule", "retry", "force_retry"]
 EXTRAS = ["plain", "set_result", "set_exception", "callback", "raising_callback", "raising_partial_callback"]
 BEHAVIOURS = (["return", "raise", "sleep_vs_timeout", "bad_payload", "failing_dependency", "bad_return", "raise_unprintable"] +
-              ["eager_" + e for e in EAGER] + ["eager_reject_on_timeout"])
+              ["eager_" + e for e in EAGER] + ["eager_reject_on_timeout", "nested_dependency_acks"])
 
 
 def _action(beh):
@@ -100,6 +100,43 @@ def h02_rabbit_retry(S):
             info=f"confirm after delivery={bool(confirm)}: message is in {out['places'].get('m1')}, expected {want}")
 
 
+def h02_rabbit_slow_settle(S):
+    """RabbitMQ over a slow connection: the actor acks eagerly, the ack frame is out but the call is still draining when the
+    execution timeout cancels the actor; whatever the worker does next, the delivery is settled once."""
+    from repid import Job, MessageDependency, Router, Worker
+    from repid.converter import BasicConverter
+
+    eager = ["ack", "nack", "reject"][S.pick("eager_answer", 3)]
+    retries = S.pick("retries", 2)
+    out = {}
+
+    async def main(loop):
+        w = World(backend="rabbit")
+        await w.open(record=False)
+        r = Router()
+
+        @r.actor(converter=BasicConverter, retry_policy=lambda retry_number=1: real_timedelta(hours=1))
+        async def job(m: MessageDependency):
+            w.srv.settle_delay = 2              # from now on settle calls take 2 s to return; the job's timeout is 1 s
+            await getattr(m, eager)()
+
+        await Job("job", id_="m1", retries=retries, timeout=real_timedelta(seconds=1), _connection=w.conn).enqueue()
+        worker = Worker(routers=[r], handle_signals=[], _connection=w.conn, graceful_shutdown_time=5.0, messages_limit=1)
+        try:
+            await asyncio.wait_for(worker.run(), timeout=30)
+            out["returned"] = True
+        except asyncio.TimeoutError:
+            out["returned"] = False
+        await asyncio.sleep(3)
+        out["frames"] = [x for ch in w.srv.channels for x in ch.log if x[0] in ("ack", "nack", "reject")]
+
+    run_async(main)
+    S.cover("slow-settle")
+    S.check("worker-returns", out["returned"])
+    tags = [f[1] for f in out["frames"]]
+    S.check("one-settle-frame-per-delivery", len(tags) == len(set(tags)), info=f"settle frames on the channel: {out['frames']}")
+
+
 def h02_worker(S, eager_extras=False, backend="mem", tasks_limit=2):
     """Two messages through a real Worker.run(): message 1 misbehaves in every supported way."""
     import repid.data._parameters as P
@@ -136,7 +173,20 @@ def h02_worker(S, eager_extras=False, backend="mem", tasks_limit=2):
         r = Router()
         policy = lambda retry_number=1: real_timedelta(hours=1)  # noqa: E731
 
-        if beh == "failing_dependency":
+        if beh == "nested_dependency_acks":
+            # a dependency of a dependency answers the broker itself (e.g. drops a message it recognises as a duplicate)
+            async def inner(m: MessageDependency):
+                await m.ack()
+
+            async def outer(x: Annotated[None, Depends(inner)]):
+                runs["outer"] = runs.get("outer", 0) + 1
+                return 1
+
+            @r.actor(name="first", converter=conv, retry_policy=policy)
+            async def first(i: int, dep: Annotated[int, Depends(outer)]):
+                runs["m1"] += 1
+                raise ValueError("the actor must not run after the message was answered")
+        elif beh == "failing_dependency":
             @r.actor(name="first", converter=conv, retry_policy=policy)
             async def first(i: int, dep: Annotated[int, Depends(failing_provider)]):
                 runs["m1"] += 1
@@ -281,6 +331,9 @@ def h02_worker(S, eager_extras=False, backend="mem", tasks_limit=2):
         else:
             want = None   # exactly at the timeout: either outcome, but still exactly one action
         invoked = 1
+    elif beh == "nested_dependency_acks":
+        want, invoked = "ack", 0
+        S.check("nothing-runs-after-a-dependency-answered", runs.get("outer", 0) == 0 and runs["m1"] == 0, info=str(runs))
     elif beh in ("bad_payload", "failing_dependency"):
         want, invoked = ladder(True), 0
     elif beh in ("bad_return", "raise_unprintable"):
@@ -316,6 +369,12 @@ def h02_worker(S, eager_extras=False, backend="mem", tasks_limit=2):
         S.check("final-place-matches-disposition", names == exp_place, info=f"{ops1} -> {names}")
 
 
+HARNESSES_EXTRA = [
+    Harness(name="H02-rabbit-slow-settle", scenario=h02_rabbit_slow_settle,
+            bounds={"eager answer": "ack / nack / reject, draining for 2 s while the execution timeout is 1 s", "retries": "0 or 1"},
+            functions=["connections/rabbitmq/message_broker.py:RabbitMessageBroker.ack", "_processor.py:_Processor.report_to_broker"],
+            covers=["slow-settle"], stubs=["fake AMQP channel: the frame takes effect at once, the call returns 2 s later"]),
+]
 HARNESSES = [
     Harness(
         name="H02-ladder", scenario=h02_ladder, workers=8,
@@ -356,3 +415,4 @@ HARNESSES += [
         covers=["beh-return"]),
 ]
 ASSUMPTIONS = ["in-memory brokers; virtual time; message 1 placed directly in the waiting queue with symbolic retry counters"]
+HARNESSES += HARNESSES_EXTRA
